@@ -171,6 +171,10 @@ class Check:
         g, w = S.show(got, names), S.show(want, names)
         if res.equal is True:
             return self.holds(kind, name, where, f"{res.method}", expected=w[:600], found=g[:600])
+        if res.equal is False and S.opaque_parts(got):
+            op = S.opaque_parts(got)[0]
+            return self.undecided(kind, name, where, f"the reconstructed value contains a part the analyser cannot interpret (`{S.show(op)[:80]}`): "
+                                  "it is not shown equal to the specified value, but a difference cannot be claimed either", expected=w[:600], found=g[:600])
         if res.equal is False:
             wit = {k: (v if isinstance(v, (int, str, bool)) or v is None else repr(v)) for k, v in (res.witness or {}).items()}
             small = {k[:120]: v for k, v in list(wit.items())[:12]}
